@@ -225,37 +225,46 @@ def _rank(acc, case):
         acc.cls("zero-in-counts")
     clean = sorted((v for v in vals if v == v), reverse=True)
     n = len(clean)
+    fig, (ax, other_) = plt.subplots(1, 2)       # one figure per case; the target axes are cleared between calls and are not the current axes
+    try:
+        _rank_body(acc, case, vals, clean, n, ax)
+    finally:
+        plt.close(fig)
+
+
+def _rank_body(acc, case, vals, clean, n, ax):
+    import numpy as np
+    import pyrepseq.plotting as P
     for nx in (True, False):
         for ny in (False, True):
             for sc in (1.0, 2.0):
-                boxes = [list, np.array]
+                import pandas as pd
+                # a count vector may arrive as a list, an array, a Series with any index, or an (n x 1) column
+                boxes = [list, np.array, lambda v: pd.Series(v, index=range(len(v), 0, -1)), lambda v: np.array(v).reshape(-1, 1), lambda v: pd.DataFrame({"count": v})]
+                acc.cls("column-shaped-counts")
                 if all(v == v for v in vals):
                     boxes.append(lambda v: np.array(v, dtype=np.uint64))      # counts are often stored unsigned
                     acc.cls("unsigned-counts")
                 for box in boxes:
-                    fig, (ax, other_) = plt.subplots(1, 2)
+                    ax.cla()
                     r = acc.call(P.rankfrequency, box(vals), ax=ax, normalize_x=nx, normalize_y=ny, scalex=sc, scaley=sc)
                     key = "rankfrequency/%s" % ("normalised" if nx or ny else "raw")
                     if raised(r):
                         acc.fail(key + "/raised-" + r.type, case, "Line2D list", r)
-                        plt.close(fig)
                         return
                     try:
                         line = r[0]
                         x, y = list(map(float, line.get_xdata())), list(map(float, line.get_ydata()))
                     except Exception as e:
                         acc.fail(key + "/malformed", case, "list of Line2D", repr(r)[:200])
-                        plt.close(fig)
                         return
                     tot = sum(clean)
                     ex = [((v / tot if tot else float("nan")) if nx else v) * sc for v in clean]
                     ey = [(i / n if ny else i) * sc for i in range(n)]
                     if len(x) != n or len(y) != n or not all(feq(a, b) for a, b in zip(x, ex)) or not all(feq(a, b) for a, b in zip(y, ey)):
                         acc.fail(key + "/line-data", ("rank", case[1]), {"x": ex, "y": ey}, {"x": x, "y": y}, note="normalize_x=%s normalize_y=%s scale=%s" % (nx, ny, sc))
-                        plt.close(fig)
                         return
                     acc.ok(("rank", nx, ny, sc, tuple(ex)), nontrivial=len(set(clean)) > 1)
-                    plt.close(fig)
 
 
 def _colors(acc, case):
